@@ -374,10 +374,18 @@ func judgeExchange(ex *exchange, th *tagHandlers) (string, string) {
 		}
 		return "", ""
 	case "bad-type", "bad-charset":
-		if ex.Status != http.StatusUnsupportedMediaType {
+		if ex.Status == http.StatusUnsupportedMediaType {
+			return "", ""
+		}
+		// Some labels are JSON by another name (a structured-syntax suffix, the
+		// registered JSON-RPC types, US-ASCII as a subset of UTF-8) or no label at
+		// all: "non-JSON or non-UTF-8 content types 415" does not settle them. A
+		// bridge that takes them must then serve the request like any other.
+		lenient := map[string]bool{"": true, "application/json-rpc": true, "text/json": true, "application/x-json": true, "application/vnd.api+json": true, "application/json; charset=us-ascii": true}
+		if !lenient[ex.CType] {
 			return "want 415 for this content type", "wrong-status"
 		}
-		return "", ""
+		ex.Kind = "rpc"
 	case "non-json":
 		if ex.Status < 400 {
 			return "want an error status for a body that is not JSON", "wrong-status"
